@@ -7,6 +7,7 @@ import (
 	"fmt"
 	"math/rand"
 	"os"
+	"regexp"
 	"sort"
 	"strings"
 	"time"
@@ -25,6 +26,8 @@ import (
 //     create or rename system call issued by the flusher or the compactor (every n of the sampled session in
 //     thorough, a sample in quick). Afterwards the process is gone (stopped or closed), faults are off, the
 //     directory is recovered and must hold every acknowledged write.
+
+var failureWords = regexp.MustCompile(`(?i)\b(error|err|fail|failed|failure|cannot|could not)\b`)
 
 func init() {
 	harnesses["faultsim"] = faultsimMain
@@ -278,6 +281,19 @@ func runSysCase(c *Ctx, sc sysCase, tape *simrt.Tape) sysOutcome {
 	for _, op := range hist {
 		if op.Err != "" {
 			reported = true
+		}
+	}
+	// a background cycle that logs its failure and carries on (retrying later) has reported it too: the statement
+	// asks for an error or a stop, not for a particular channel
+	afterFault := false
+	for _, e := range trace {
+		if e.Kind == simrt.EvFault {
+			afterFault = true
+		}
+		if afterFault && e.Kind == simrt.EvLog && failureWords.MatchString(e.Note) {
+			reported = true
+			c.Count("probe:fault-reported-by-log-line", 1)
+			break
 		}
 	}
 	if lastRes.SchedErr != nil && !out.stopped {
